@@ -655,6 +655,7 @@ int mpz_EGlpNumReadStr (mpz_t var,
 	char unsigned sgn = 0;
 	char c = 0;
 	int n_char = 0;
+	int any_dig = 0;
 	/* now we read the string */
 	c = str[n_char];
 	mpz_set_ui (var, (unsigned long int)0);
@@ -676,6 +677,7 @@ int mpz_EGlpNumReadStr (mpz_t var,
 			mpz_mul_ui (var, var, (unsigned long int)10);
 			mpz_add_ui (var, var,  (unsigned long int)(c - '0'));
 			a_sgn = 0;
+			any_dig = 1;
 			break;
 		case '-':
 			sgn = 1;
@@ -688,6 +690,9 @@ int mpz_EGlpNumReadStr (mpz_t var,
 	}
 	if (sgn)
 		mpz_neg (var, var);
+	/* a sign alone is not a number */
+	if (!any_dig)
+		n_char = 0;
 	return n_char;
 }
 
@@ -709,6 +714,7 @@ int mpq_EGlpNumReadStrXc (mpq_t var,
 	  n_dig = 0,
 	  cn = 0;
 	int bad_exp = 0;
+	int any_dig = 0;
 	mpq_t den[2];
 	mpq_init (den[0]);
 	mpq_init (den[1]);
@@ -736,6 +742,7 @@ int mpq_EGlpNumReadStrXc (mpq_t var,
 		case '7':
 		case '8':
 		case '9':
+			any_dig = 1;
 			/* if we haven't read the exponent then the digits bellongs to the mantisa
 			 * */
 			if (a_exp || n_dig == 0)
@@ -815,7 +822,8 @@ int mpq_EGlpNumReadStrXc (mpq_t var,
 		/* advance the reading character */
 		c = str[++n_char];
 	}
-	if (bad_exp)
+	/* a sign or a '.' alone is not a number */
+	if (bad_exp || !any_dig)
 		n_char = 0;
 	if (n_char)
 	{
